@@ -175,6 +175,7 @@ def generate(rng, tier: str, index: int) -> dict:
     model = base_model(rng, nn, nvar)
     steps = []
     cur = model
+    reann: list = []
     for _ in range(rng.randint(1, 5)):
         edits = gen_edits(rng, cur, nvar, 3)
         fault = None
@@ -184,9 +185,22 @@ def generate(rng, tier: str, index: int) -> dict:
         for _ in range(rng.randint(0, 3)):
             r = {'p': rng.choice(RW.API_PREFIXES[:4]), 'pid': None, 'nh': rng.choice(['10.0.0.9', 'self']), 'v': rng.randint(0, nvar - 1)}
             api_ops.append({'op': rng.choice(['ann', 'ann', 'wd']), 'route': r})
+        # a configured prefix an earlier step handed over to the API is not configured again (whose route it is must stay unambiguous)
+        edits = [e for e in edits if not (e['e'] == 'add-route' and [e['n'], e['p']] in reann)]
+        post_ops = []
+        if fault is None:
+            nxt = apply_edits(cur, edits)
+            for key, nb in cur['neighbors'].items():
+                gone = sorted(p for p in nb['routes'] if key in nxt['neighbors'] and p not in nxt['neighbors'][key]['routes'] and ':' not in p)
+                if gone and rng.chance(0.5):
+                    # right after the reload (the session may still be down) the operator announces, through the API, a prefix
+                    # the new file no longer configures for this neighbor
+                    p = rng.choice(gone)
+                    post_ops.append({'nbr': nb['idx'], 'p': p, 'nh': rng.choice(['10.0.0.9', 'self']), 'v': rng.randint(0, nvar - 1)})
+                    reann.append([key, p])
         steps.append(
             {
-                'edits': edits, 'fault': fault, 'via': rng.choice(['signal', 'signal', 'api']), 'api_ops': api_ops,
+                'edits': edits, 'fault': fault, 'via': rng.choice(['signal', 'signal', 'api']), 'api_ops': api_ops, 'post_ops': post_ops,
                 'sessions': {str(i): rng.choice(['up', 'up', 'up', 'down', 'die', 'opensent']) for i in range(3)}, 'gap': rng.choice([0.0, 0.05, 1.0]),
             }
         )  # fmt: skip
@@ -247,8 +261,8 @@ def execute(plan: dict) -> dict:
             out.update(api_routes[i])
         return out
 
-    def is_conf_key(k) -> bool:
-        return k[3].startswith('192.0.') or k[3].startswith('2001:db8:')
+    def is_conf_key(k, i) -> bool:
+        return (k[3].startswith('192.0.') or k[3].startswith('2001:db8:')) and k not in api_routes[i]
 
     def snapshot_state() -> dict:
         conf = w.reactor.configuration
@@ -296,7 +310,7 @@ def execute(plan: dict) -> dict:
             if st.get('api_unknown'):
                 # an unmodelled configuration was live for a while: API routes are judged peer == reported only
                 pv_all = pv
-                pv = {k: v for k, v in pv.items() if is_conf_key(k)}
+                pv = {k: v for k, v in pv.items() if is_conf_key(k, i)}
             if pv != want:
                 d = RW.diff_tables(pv, want, 'peer', 'expected')
                 violations.append(viol('C17/peer-table-after-' + where, f'neighbor {RW.PEER_IPS[i]} ({where}, step {st["step"]}): ' + '; '.join(d), where=where))
@@ -309,7 +323,7 @@ def execute(plan: dict) -> dict:
                     d = RW.diff_tables(pv_all, rep, 'peer', 'adj-rib-out')
                     violations.append(viol('C17/peer-differs-from-adj-rib-out', f'neighbor {RW.PEER_IPS[i]} ({where}): ' + '; '.join(d)))
                     return
-                rep = {k: v for k, v in rep.items() if is_conf_key(k)}
+                rep = {k: v for k, v in rep.items() if is_conf_key(k, i)}
             if rep != want:
                 d = RW.diff_tables(rep, want, 'adj-rib-out', 'expected')
                 violations.append(viol('C17/adj-rib-out-after-' + where, f'neighbor {RW.PEER_IPS[i]} ({where}, step {st["step"]}): ' + '; '.join(d), where=where))
@@ -467,12 +481,27 @@ def execute(plan: dict) -> dict:
                             if speakers[i].established() is not None:
                                 violations.append(viol('C17/removed-neighbor-still-up', f'neighbor {RW.PEER_IPS[i]} was removed from the configuration but its session is still established'))
                     st['phase'] = 'next'
+                    if not violations and not st.get('api_unknown'):
+                        for op in plan['steps'][st['step']].get('post_ops', []):
+                            i = op['nbr']
+                            if str(i) not in model['neighbors'] or op['p'] in model['neighbors'][str(i)]['routes']:
+                                continue
+                            probes['post_reload_api_reannounce'] = probes.get('post_reload_api_reannounce', 0) + 1
+                            if i in st['down']:
+                                probes['post_reload_api_reannounce_while_down'] = probes.get('post_reload_api_reannounce_while_down', 0) + 1
+                            h.emit(f'peer {RW.PEER_IPS[i]} announce {RW.route_text({"p": op["p"], "nh": op["nh"], "v": op["v"]}, variants)}\n'.encode())
+                            api_routes[i][RW.key_of(op['p'], None, False)] = (LOCAL if op['nh'] == 'self' else op['nh'], variants[op['v']]['med'])
+                            st['phase'] = 'post-wait'
+                            st['t'] = now
                 elif now > st['t'] + 150.0:
                     violations.append(viol('C17/not-converged-after-reload', f'150 s after a successful reload: sessions_ok={sessions_ok(model)} quiescent={w.quiescent()}'))
             else:
                 if now > st['t'] + 3.0:
                     check_failed_reload()
                     st['phase'] = 'canary' if not violations else 'next'
+        elif ph == 'post-wait':
+            if now > st['t'] + 1.5 and w.quiescent():
+                st['phase'] = 'next'
         elif ph == 'canary':
             # the API must still reach the peers
             st['canary'] += 1
